@@ -595,7 +595,11 @@ func parseValue(p *cfgPrimitive, opts *options, str string, parseCfg parse.Confi
 		return newString(p.ctx, p.meta(), v), nil
 	}
 
-	sub, err := normalize(opts, ifc)
+	// The string has been expanded already. Its contents must not be expanded
+	// (and unescaped) a second time.
+	subOpts := *opts
+	subOpts.varexp = false
+	sub, err := normalize(&subOpts, ifc)
 	if err != nil {
 		return nil, err
 	}
